@@ -168,6 +168,31 @@ theorem engCmpVV_unsafe (st : St) (op : String) (tc : List String) (a b : Dense)
   obtain ⟨st', h, w⟩ := engCmpVV_unsafe' st op tc a b ⟨by simpa using htc, hdt, hsh⟩ hia hib hord hne hlen hcap hA hB
   exact ⟨_, h, rfl, Writes.sem2 (F := fun x y => .app2 (op ++ ".same") x y) w hA.has hB.has⟩
 
+/-- **In place (`UseUnsafe()`) on the iterator path**: exactly the logical elements of the first operand are overwritten,
+    each with the 1/0 form `op.same x y` of the operands' elements at the same position of the logical order; the gaps
+    of a view, the rest of its parent, the second operand and every other buffer are unchanged. -/
+theorem engCmpVV_unsafe_iter (st : St) (op : String) (tc : List String) (a b : Dense)
+    (hsh : shapeEq a.shape b.shape = true) (hdt : a.dt = b.dt) (htc : a.dt ∈ tc)
+    (hu : (a.requiresIterator || b.requiresIterator || !sameOrd a b) = true)
+    (hma : a.mask = none) (hmb : b.mask = none) (hla : a.win.len ≠ 1) (hlb : b.win.len ≠ 1)
+    (hne : a.win.buf ≠ b.win.buf)
+    (hoa : ∀ i ∈ a.offsets, 0 ≤ i ∧ i < (a.win.len : Int)) (hob : ∀ j ∈ b.offsets, 0 ≤ j ∧ j < (b.win.len : Int))
+    (hnd : a.offsets.Nodup)
+    (hA : InBuf st a.win.buf a.win.off a.win.len) (hB : InBuf st b.win.buf b.win.off b.win.len) :
+    ∃ out, engCmpVV st op tc a b { unsafe_ := true } = .ok out ∧ out.ret = .a ∧ out.st.mheap = st.mheap ∧
+      (∀ (k : Nat) i j, a.offsets[k]? = some i → b.offsets[k]? = some j →
+        ∃ x y, cell st a.win.buf (a.win.off + i.toNat) = some x ∧ cell st b.win.buf (b.win.off + j.toNat) = some y ∧
+          cell out.st a.win.buf (a.win.off + i.toNat) = some (.app2 (op ++ ".same") x y)) ∧
+      (∀ b' k', (b' ≠ a.win.buf ∨ ∀ (k : Nat) i j, a.offsets[k]? = some i → b.offsets[k]? = some j →
+          k' ≠ a.win.off + i.toNat) → cell out.st b' k' = cell st b' k') := by
+  obtain ⟨st', h, hm, hv, hfr⟩ := engCmpVV_unsafe_iter' st op tc a b ⟨by simpa using htc, hdt, hsh⟩ hu hma hmb hla hlb hne
+    hoa hob hnd hA hB
+  refine ⟨_, h, rfl, hm, ?_, hfr⟩
+  intro k i j hi hj
+  have h1 := hoa i (List.mem_of_getElem? hi)
+  have h2 := hob j (List.mem_of_getElem? hj)
+  exact ⟨_, _, cell_some_cellD (hA.has.at h1.1 h1.2), cell_some_cellD (hB.has.at h2.1 h2.2), hv k i j hi hj⟩
+
 /-- Refusal by type class: an element type outside the comparison's class gives an error value,
     whatever the options; no state is produced. -/
 theorem engCmpVV_refuses (st : St) (op : String) (tc : List String) (a b : Dense) (o : Opts) (h : a.dt ∉ tc) :
@@ -344,6 +369,8 @@ example : ∃ out, engCmpScalar st6 "gt" ordTypes tv scv false { same := true } 
     cell out.st 3 2 = some (.app2 "gt.same" (.src 1 0) (.src 0 4)) := ⟨_, rfl, rfl, rfl, rfl⟩
 -- the iterator path: the (1,3) view with gaps of the former F31 witness compared with a contiguous (1,3) tensor
 example := engCmpVV_default_iter st6 "gt" ordTypes tv trv (by decide) rfl (by decide) (by decide) rfl rfl (by decide) (by decide)
+  (by decide) (by decide) (by decide) (by decide) ⟨_, rfl, by decide⟩ ⟨_, rfl, by decide⟩
+example := engCmpVV_unsafe_iter st6 "gt" ordTypes tv trv (by decide) rfl (by decide) (by decide) rfl rfl (by decide) (by decide)
   (by decide) (by decide) (by decide) (by decide) ⟨_, rfl, by decide⟩ ⟨_, rfl, by decide⟩
 example := engCmpVV_same_iter st6 "gt" ordTypes tv trv (by decide) rfl (by decide) (by decide) rfl rfl (by decide) (by decide)
   (by decide) (by decide) (by decide) (by decide) (by decide) ⟨_, rfl, by decide⟩ ⟨_, rfl, by decide⟩
